@@ -1250,8 +1250,11 @@ impl TieredEngine {
         // Only search cold tier if it has documents (dimension > 0)
         let cold_results = if cold_tier_has_docs {
             let effective_ef_search = ef_search_override.or(Some(self.config.hnsw_ef_search));
-            self.cold_tier
-                .knn_search_with_ef(query, cold_tier_candidate_count(k), effective_ef_search)?
+            self.cold_tier.knn_search_with_ef(
+                query,
+                cold_tier_candidate_count(k),
+                effective_ef_search,
+            )?
         } else {
             vec![]
         };
@@ -1470,12 +1473,11 @@ impl TieredEngine {
 
         let cold_results = if cold_tier_has_docs {
             let effective_ef_search = ef_search_override.unwrap_or(self.config.hnsw_ef_search);
-            let results =
-                self.cold_tier.knn_search_batch(
-                    &miss_queries,
-                    cold_tier_candidate_count(k),
-                    Some(effective_ef_search),
-                )?;
+            let results = self.cold_tier.knn_search_batch(
+                &miss_queries,
+                cold_tier_candidate_count(k),
+                Some(effective_ef_search),
+            )?;
             {
                 let mut stats = self.stats.write();
                 stats.cold_tier_searches += miss_indices.len() as u64;
